@@ -7,7 +7,7 @@ from .. import catalogue as K
 from .. import tys as T
 from .. import speccheck as S
 
-THEOREMS = ["c11_from_container", "c11_try_from_container", "c11_validate"]
+THEOREMS = ["c11_from_container", "c11_try_from_container", "c11_validate", "c11_field_stage_ok", "c11_field_stage_err", "c11_maps_at_construction"]
 
 
 def uses_functions(it):
